@@ -134,8 +134,8 @@ def gen_case(prop, tier, seed, stream, k):
         for r in m.rows:
             if r.name is None:
                 r.name = "?"          # generated by the reader; resolved from the first dump
-        files["src.%s" % srcfmt.lower()] = text.encode()
-        L = ["read_prob p0 @W@/src.%s %s" % (srcfmt.lower(), srcfmt), "dump p0"]
+        files["src%d.%s" % (k, srcfmt.lower())] = text.encode()
+        L = ["read_prob p0 @W@/src%d.%s %s" % (k, srcfmt.lower(), srcfmt), "dump p0"]
     else:
         L = model.script_build(m, "p0", rowwise=rnd.random() < 0.6)
         if rnd.random() < 0.2 and m.nrows:
